@@ -299,6 +299,7 @@ def systematic():
         out.append(("form:st", src))
     out += ifself_programs()
     out += forelse_programs()
+    out += nested_ann_programs()
     out += matrix_row_programs()
     return out
 
@@ -379,6 +380,17 @@ FORELSE_FORMS = [
     ("second-loop", "def fe_7(a: Qint[2]) -> Qint[4]:\n\ts = a\n\tfor i in range(2):\n\t\ts += 1\n\telse:\n\t\tfor j in range(2):\n"
                     "\t\t\ts += j\n\treturn s"),
 ]
+
+
+def nested_ann_programs():
+    """containers nested in container annotations and one-element tuples (repaired f3ecbf2), indexed into; and builtins over
+    an argument whose elements are not known at translation time (repaired 5e521a1: refused, not counted as one element)"""
+    out = [("nested-ann:" + tag, f"def na_{k}(t: {ann}, i: Qint[2], j: Qint[2]) -> {rt}:\n\treturn {body}")
+           for k, (tag, ann, body, rt) in enumerate(a2a.NESTED_ANN_FORMS)]
+    out.append(("unknown-iterable:len-var-row", "def ui_0(t: Qmatrix[Qint[2], 2, 3], i: Qint[2]) -> Qint[4]:\n\treturn len(t[i])"))
+    out.append(("unknown-iterable:len-var-row-bool", "def ui_1(t: Qmatrix[bool, 2, 2], i: Qint[2]) -> Qint[2]:\n\treturn len(t[i]) + 1"))
+    out.append(("unknown-iterable:len-ifexp", "def ui_2(t: Qlist[bool, 2], u: Qlist[bool, 2], c: bool) -> Qint[2]:\n\treturn len(t if c else u)"))
+    return out
 
 
 def forelse_programs():
@@ -636,6 +648,14 @@ MALFORMED = [
     ("mod-var", "def mf_38(a: Qint[4], b: Qint[4]) -> Qint[4]:\n\treturn a % b"),
     ("neg-index", "def mf_39(a: Qint[4]) -> bool:\n\treturn a[-1]"),
     ("ord-small", "def mf_40(c: Qchar) -> bool:\n\treturn ord(c) < 100"),
+    # python cannot run these (TypeError: object of type 'int' has no len() / is not iterable): refused since 5e521a1
+    ("len-scalar", "def mf_41(a: Qint[2]) -> Qint[2]:\n\treturn len(a)"),
+    ("sum-scalar", "def mf_42(a: Qint[2]) -> Qint[2]:\n\treturn sum(a)"),
+    ("max-scalar", "def mf_43(a: Qint[2]) -> Qint[2]:\n\treturn max(a)"),
+    ("min-scalar", "def mf_44(a: Qint[2]) -> Qint[2]:\n\treturn min(a)"),
+    ("any-scalar", "def mf_45(a: bool) -> bool:\n\treturn any(a)"),
+    ("all-scalar", "def mf_46(a: bool) -> bool:\n\treturn all(a)"),
+    ("len-bool", "def mf_47(a: bool) -> Qint[2]:\n\treturn len(a)"),
 ]
 
 
